@@ -49,7 +49,7 @@ def st_case(draw):
         # a record with three segments (approach / pause / retract): any of them may be fitted
         src["curve"]["n_pause"] = draw(st.integers(20, 60))
         cfg["segment"] = draw(st.sampled_from([0, 1, 2, 2]))
-    prior = draw(st.sampled_from([None, None, "nm", "nm", "sample"]))
+    prior = draw(st.sampled_from([None, None, "nm", "nm", "sample", "plateau"]))
     case = {"src": src, "cfg": cfg, "prior": prior, "prior_shift": draw(st.floats(0.5e-9, 9e-9)),
             "prior_sign": draw(st.sampled_from([1, -1]))}
     if cfg["range_type"] == "relative cp" and cfg["gcf_k"] == 1.0 and not cfg["optimal_fit_edelta"]:
@@ -81,7 +81,14 @@ def check_case(case, ctx):
         return
     if case.get("prior") and kw["range_x"][0] != kw["range_x"][1] and np.all(np.isfinite(kw["range_x"])):
         kw0 = dict(kw)
-        if case["prior"] == "nm":
+        if case["prior"] == "plateau":
+            # the prior request ran the plateau search with the same upper bound and another lower bound (a don't-care
+            # there); the measured request switches the search off and names its own lower bound, which now counts
+            if mode == "absolute":
+                r = list(kw["range_x"])
+                r[int(np.argmin(r))] += case["prior_shift"] * case["prior_sign"]
+                kw0.update(range_x=r, optimal_fit_edelta=True, optimal_fit_num_samples=9)
+        elif case["prior"] == "nm":
             d = case["prior_shift"] * case["prior_sign"]
             kw0["range_x"] = [kw["range_x"][0] + d, kw["range_x"][1] + d]
         else:
